@@ -22,18 +22,38 @@ func init() {
 type profile struct {
 	name  string
 	m     map[rune]rune
-	input []rune // input alphabet before renaming
+	input []rune          // input alphabet before renaming
+	enc   map[rune]string // optional: raw byte encoding of (renamed) input-only letters, for invalid UTF-8
+}
+
+// encode builds the byte string for a (renamed) rune input.
+func (pr profile) encode(in []rune) string {
+	if pr.enc == nil {
+		return string(in)
+	}
+	var sb []byte
+	for _, r := range in {
+		if e, ok := pr.enc[r]; ok {
+			sb = append(sb, e...)
+		} else {
+			sb = append(sb, string(r)...)
+		}
+	}
+	return string(sb)
 }
 
 var (
-	profP0  = profile{"P0-ascii", nil, []rune{'a', 'b', 'c'}}
-	profP0i = profile{"P0-mixedcase", map[rune]rune{}, []rune{'a', 'B', 'c'}}
-	profP1  = profile{"P1-latin1+newline", map[rune]rune{'a': 'é', 'c': '\n'}, []rune{'a', 'b', 'c'}}
-	profP1i = profile{"P1-latin1-mixedcase", map[rune]rune{'a': 'é', 'B': 'É'}, []rune{'a', 'B', 'b'}}
-	profP2  = profile{"P2-astral+combining", map[rune]rune{'b': 0x1D538, 'c': 0x0301}, []rune{'a', 'b', 'c'}}
-	profP3  = profile{"P3-U+FFFD", map[rune]rune{'b': 0xFFFD}, []rune{'a', 'b', 'c'}}
-	profP6  = profile{"P6-newline-pattern-letter", map[rune]rune{'b': '\n'}, []rune{'a', 'b', 'c'}}
-	profGk  = profile{"P7-greek-mixedcase", map[rune]rune{'a': 'δ', 'B': 'Δ', 'b': 'ж'}, []rune{'a', 'B', 'b'}}
+	profP0  = profile{name: "P0-ascii", input: []rune{'a', 'b', 'c'}}
+	profP0i = profile{name: "P0-mixedcase", m: map[rune]rune{}, input: []rune{'a', 'B', 'c'}}
+	profP1  = profile{name: "P1-latin1+newline", m: map[rune]rune{'a': 'é', 'c': '\n'}, input: []rune{'a', 'b', 'c'}}
+	profP1i = profile{name: "P1-latin1-mixedcase", m: map[rune]rune{'a': 'é', 'B': 'É'}, input: []rune{'a', 'B', 'b'}}
+	profP2  = profile{name: "P2-astral+combining", m: map[rune]rune{'b': 0x1D538, 'c': 0x0301}, input: []rune{'a', 'b', 'c'}}
+	profP3  = profile{name: "P3-U+FFFD", m: map[rune]rune{'b': 0xFFFD}, input: []rune{'a', 'b', 'c'}}
+	profP6  = profile{name: "P6-newline-pattern-letter", m: map[rune]rune{'b': '\n'}, input: []rune{'a', 'b', 'c'}}
+	profP4  = profile{name: "P4-invalid-byte-0xFF", m: map[rune]rune{'c': 0xE000}, input: []rune{'a', 'b', 'c'}, enc: map[rune]string{0xE000: "\xff"}}
+	profP5  = profile{name: "P5-truncated-E2-82", m: map[rune]rune{'c': 0xE000}, input: []rune{'a', 'b', 'c'}, enc: map[rune]string{0xE000: "\xe2\x82"}}
+	profP45 = profile{name: "P45-é+0xFF", m: map[rune]rune{'a': 'é', 'c': 0xE000}, input: []rune{'a', 'b', 'c'}, enc: map[rune]string{0xE000: "\xff"}}
+	profGk  = profile{name: "P7-greek-mixedcase", m: map[rune]rune{'a': 'δ', 'B': 'Δ', 'b': 'ж'}, input: []rune{'a', 'B', 'b'}}
 )
 
 type specJob struct {
@@ -131,7 +151,7 @@ func runSpecCheck(c *Ctx, rtl bool) {
 	add("NAMED<=4", named, "", profP0, 4, false)
 	add("NAMED<=4", named, "n", profP0, 4, false)
 	add("CONDEXP<=5", condexp, "", profP0, 4, false)
-	add("OPTGROUP<=4", optg, "", profile{"P0-mixedcase+newline", map[rune]rune{'c': '\n'}, []rune{'a', 'B', 'c'}}, 4, false)
+	add("OPTGROUP<=4", optg, "", profile{name: "P0-mixedcase+newline", m: map[rune]rune{'c': '\n'}, input: []rune{'a', 'B', 'c'}}, 4, false)
 	add("SEQ k<=2 anchored", seq2, "", profP0, 5, false)
 	add("SEQ k<=2 anchored", seq2, "m", profP6, 4, false)
 	add("SEQ k<=3", seq3, "", profP0, 5, false)
@@ -139,18 +159,18 @@ func runSpecCheck(c *Ctx, rtl bool) {
 	add("ALT", altL, "i", profP0i, 4, false)
 	add("LOOP", loopF, "", profP0, 5, false)
 	add("LOOK", lookF, "", profP0, 4, false)
-	add("ANCH<=4", anch, "", profile{"ANCH {a,\\n,c}", map[rune]rune{'b': '\n'}, []rune{'a', 'b', 'c'}}, 4, false)
-	add("ANCH<=4", anch, "m", profile{"ANCH {a,\\n,c}", map[rune]rune{'b': '\n'}, []rune{'a', 'b', 'c'}}, 4, false)
-	add("ANCH<=4", anch, "s", profile{"ANCH {a,\\n,c}", map[rune]rune{'b': '\n'}, []rune{'a', 'b', 'c'}}, 4, false)
+	add("ANCH<=4", anch, "", profile{name: "ANCH {a,\\n,c}", m: map[rune]rune{'b': '\n'}, input: []rune{'a', 'b', 'c'}}, 4, false)
+	add("ANCH<=4", anch, "m", profile{name: "ANCH {a,\\n,c}", m: map[rune]rune{'b': '\n'}, input: []rune{'a', 'b', 'c'}}, 4, false)
+	add("ANCH<=4", anch, "s", profile{name: "ANCH {a,\\n,c}", m: map[rune]rune{'b': '\n'}, input: []rune{'a', 'b', 'c'}}, 4, false)
 	if !rtl {
-		add("ANCH<=4", anch, "2", profile{"ANCH {a,\\n,c}", map[rune]rune{'b': '\n'}, []rune{'a', 'b', 'c'}}, 4, false)
+		add("ANCH<=4", anch, "2", profile{name: "ANCH {a,\\n,c}", m: map[rune]rune{'b': '\n'}, input: []rune{'a', 'b', 'c'}}, 4, false)
 	}
 	add("LAND", land, "", profP0, 5, false)
 	if !rtl {
 		nwb := nwbFamily()
-		add("NWB", nwb, "", profile{"NWB {a,\\n,c}", map[rune]rune{'N': '\n'}, []rune{'a', 'N', 'c'}}, 4, false)
-		add("NWB", nwb, "m", profile{"NWB {a,\\n,c}", map[rune]rune{'N': '\n'}, []rune{'a', 'N', 'c'}}, 4, false)
-		add("NWB", nwb, "", profile{"NWB {a,U+FFFD,c}", map[rune]rune{'N': 0xFFFD}, []rune{'a', 'N', 'c'}}, 4, false)
+		add("NWB", nwb, "", profile{name: "NWB {a,\\n,c}", m: map[rune]rune{'N': '\n'}, input: []rune{'a', 'N', 'c'}}, 4, false)
+		add("NWB", nwb, "m", profile{name: "NWB {a,\\n,c}", m: map[rune]rune{'N': '\n'}, input: []rune{'a', 'N', 'c'}}, 4, false)
+		add("NWB", nwb, "", profile{name: "NWB {a,U+FFFD,c}", m: map[rune]rune{'N': 0xFFFD}, input: []rune{'a', 'N', 'c'}}, 4, false)
 	}
 	if thorough {
 		// all 64 option subsets on size <= 3
